@@ -9,7 +9,9 @@ package smtp
 import (
 	"fmt"
 	"math/rand"
+	"runtime"
 	"strconv"
+	"time"
 )
 
 type verifNativeState struct {
@@ -194,3 +196,12 @@ func verifIsConcrete(x interface{}) bool { return true }
 
 // verifSleeps returns the durations passed to time.Sleep so far (engine only).
 func verifSleeps() []int64 { return nil }
+
+// verifSettle lets every other goroutine run until it finishes or blocks
+// (engine: scheduler quiescence; native: a short sleep).
+func verifSettle() {
+	for i := 0; i < 20; i++ {
+		runtime.Gosched()
+		time.Sleep(time.Millisecond)
+	}
+}
